@@ -1,5 +1,5 @@
 """registry of implementation-side drivers (name, harness sources, build kwargs)"""
-MAIN_SOURCES = ['drv_main.cc', 'ops_base64.cc', 'ops_mime.cc', 'ops_net.cc', 'ops_headers.cc', 'ops_cookie.cc', 'ops_parser.cc', 'ops_router.cc']
+MAIN_SOURCES = ['drv_main.cc', 'ops_base64.cc', 'ops_mime.cc', 'ops_net.cc', 'ops_headers.cc', 'ops_cookie.cc', 'ops_parser.cc', 'ops_router.cc', 'ops_async.cc']
 ALL = [
     ('drv_main', MAIN_SOURCES, {}),
 ]
